@@ -26,3 +26,34 @@ Example C06_vp9_example :
              (enc_many 14 65534 0 [[130; 73; 131; 66; 0; 39; 240; 29; 240; 1; 2; 3]; [134; 9]; [0; 0]])
   = Some ([65534; 65535; 0], [false; true; true]).
 Proof. vm_compute. reflexivity. Qed.
+
+(* ---- the translated kernels (tools/go2coq, spec.d/vp9.txt; regenerated from the Go source on every run) ----
+   rtpvp9/encoder.go hands uint16(e.PayloadMaxSize) to pion's VP9Payloader (non-flexible mode), whose translated statements
+   (headerSize = 3+8 for the first packet of a key frame, 3 otherwise; maxFragmentSize := int(mtu) - headerSize;
+   currentFragmentSize := minInt(...); currentFragmentSize <= 0 => no packets; make([]byte, headerSize+cur); the E bit test
+   remaining == cur) ARE the formulas of Model.enc / pieces: mtu = max mod 2^16, hs1 = if nonkey then 3 else 11, [] iff
+   mtu <= hs or nothing left, piece = ntake (mtu - hs), last piece iff the rest fits; Marker: i == plen-1; sequenceNumber++. *)
+From Coq Require Import ZArith.
+From GVG Require Import Kern.
+From GV_vp9 Require Import BridgeLib Bridge.
+Open Scope Z_scope.
+Theorem C06_vp9_kernels_are_the_code : forall (max mtu hs : N) (nonkey : bool) (rest : bytes) (i pc s : N),
+  u16 mtu -> (hs < 65536)%N -> Z.of_N (nlen rest) < i64max -> (1 <= pc)%N -> Z.of_N pc < i64max ->
+  k_vp9_mtu (Z.of_N max) = Z.of_N (max mod 65536) /\
+  hs_code nonkey 0 = Z.of_N (if nonkey then 3 else 11)%N /\ (forall idx, 0 < idx -> hs_code nonkey idx = 3) /\
+  (let cur := k_vp9_pion_min (k_vp9_pion_maxfrag (Z.of_N mtu) (Z.of_N hs)) (Z.of_N (nlen rest)) in
+   k_vp9_pion_none cur = ((mtu <=? hs)%N || (nlen rest =? 0)%N) /\
+   ((hs < mtu)%N -> cur = Z.of_N (nlen (ntake (mtu - hs) rest)) /\
+                   k_vp9_pion_outsize (Z.of_N hs) cur = Z.of_N (hs + nlen (ntake (mtu - hs) rest)) /\
+                   k_vp9_pion_end (Z.of_N (nlen rest)) cur = (nlen rest <=? mtu - hs)%N)) /\
+  k_vp9_marker (Z.of_N i) (Z.of_N pc) = (i + 1 =? pc)%N /\
+  k_vp9_seq (Z.of_N s) = Z.of_N (seq_next s).
+Proof. exact enc_kernels_are_the_code. Qed.
+Print Assumptions C06_vp9_kernels_are_the_code.
+
+Example C06_vp9_example_kernels :
+  k_vp9_mtu 65546 = 10 /\ hs_code false 0 = 11 /\ hs_code true 0 = 3 /\ hs_code false 5 = 3 /\
+  k_vp9_pion_none (k_vp9_pion_min (k_vp9_pion_maxfrag 11 11) 100) = true /\
+  k_vp9_pion_none (k_vp9_pion_min (k_vp9_pion_maxfrag 12 11) 100) = false /\
+  k_vp9_pion_outsize 3 1447 = 1450 /\ k_vp9_marker 1 2 = true /\ k_vp9_marker 0 2 = false /\ k_vp9_seq 65535 = 0.
+Proof. vm_compute. repeat split. Qed.
